@@ -12,6 +12,9 @@ Ties:
                                  on every .glu file of the repository
   validator:layout               extracted `layout_ok` (proved sound) on the real raw / layout token streams of
                                  every generated source and of every .glu file
+  correspondence:layout-model    extracted `layout` (Gallina port of parser/src/layout.rs over the tables regenerated
+                                 into coq/gen/LayoutTablesGen.v) against gluon_parser::verif::layout_tokens on the
+                                 same token streams, token by token
 """
 import json
 import os
@@ -124,6 +127,16 @@ def rt(ctx, tier_override=None, tag="rt", extra=()):
     fails = [json.loads(l) for l in common.read_lines(os.path.join(out_dir, "rt_fail.jsonl")) if l.strip()]
     res["rt_n"], res["rt_diffs"], res["rt_fails"] = n, diffs, fails
     # 2. + 3. validators
+    # 4. layout model vs real layout output
+    mo = os.path.join(out_dir, "laym_out.txt")
+    ok = ctx.run_model(model, os.path.join(out_dir, "laym_in.txt"), mo)
+    if ok:
+        nm, md = common.diff_lines(mo, os.path.join(out_dir, "laym_expected.txt"), limit=1000)
+    else:
+        nm, md = 0, []
+    mc = common.read_lines(os.path.join(out_dir, "laym_cases.txt"))
+    res["laym_ran"], res["laym_n"] = ok and nm == len(mc), nm
+    res["laym_diffs"] = [(i, a, b, mc[i] if i < len(mc) else "?") for (i, a, b) in md]
     for name, inp, cases in (("span", "span_in.txt", "span_cases.txt"), ("lay", "lay_in.txt", "lay_cases.txt")):
         outp = os.path.join(out_dir, name + "_out.txt")
         ok = ctx.run_model(model, os.path.join(out_dir, inp), outp)
@@ -221,11 +234,21 @@ def report_rt(ctx, res, record=True):
         ctx.violation(key, "layout checker rejects the real layout output: " + line, case=c, expected="ok", observed=line)
         if len(seen) >= 10:
             break
+    # ---- layout model (a disagreement is a broken tie, not by itself a failing input: the caller widens the
+    # search and reports `obligation:correspondence:layout-model` when the property's own observables hold)
+    if record:
+        md = res["laym_diffs"]
+        ctx.obligations.append(common.Obligation(
+            "correspondence:layout-model", "correspondence", res["laym_ran"] and not md,
+            "model of layout.rs vs gluon_parser layout on %d token streams, %d disagreements%s"
+            % (res["laym_n"], len(md), ("; first: %s" % json.dumps(_case_of(md[0][3]))[:300]) if md else "")))
+        ctx.coverage["ties"]["layout-model"] = {"streams": res["laym_n"], "disagreements": len(md)}
+        ctx.coverage["traces_validated_against_impl"] = ctx.coverage.get("traces_validated_against_impl", 0) + res["laym_n"]
     return nviol
 
 
 def run(ctx):
-    gen_ok = ctx.gen_coq(["OpTableGen"])
+    gen_ok = ctx.gen_coq(["OpTableGen", "LayoutTablesGen"])
     proved = ctx.coq_prove("C08") if gen_ok else False
     ran, n, diffs = tie(ctx)
     ctx.obligations.append(common.Obligation("correspondence:infix-reparse", "correspondence", ran and not diffs,
@@ -239,8 +262,10 @@ def run(ctx):
     ctx.assumptions.append("operator names are ASCII (is_alphanumeric modelled for ASCII only)")
     ctx.assumptions.append("round trip: decided on the implementation for the generated programs (not proved); the parser is "
                            "parse_partial_root_expr + metadata + reparse_infix, without macro expansion and renaming")
-    ctx.assumptions.append("layout: the validator checks the real layout output (token preservation, balance, positions); "
-                           "the layout algorithm itself is not modelled")
+    ctx.assumptions.append("layout: the validator checks the real layout output (token preservation, balance, positions); the "
+                           "Gallina port of layout.rs is tied to the implementation by differential execution on the same "
+                           "token streams (its tables are regenerated from the source); line/column of a token are computed "
+                           "by the harness from the byte offset (Location::shift), tokenizer errors are not modelled")
     for (src, m, im) in diffs[:10]:
         # By C08_reparse_unique_grouping the model's tree is the only well-bracketed tree of the
         # chain, so a different answer of the implementation is a wrong grouping / wrong error.
@@ -250,12 +275,12 @@ def run(ctx):
     res = rt(ctx)
     rt_viol = 0
     if res is None:
-        for nm in ("correspondence:roundtrip", "validator:spans", "validator:layout"):
+        for nm in ("correspondence:roundtrip", "validator:spans", "validator:layout", "correspondence:layout-model"):
             ctx.obligations.append(common.Obligation(nm, "correspondence", False, "could not run: %s" % getattr(ctx, "build_error", getattr(ctx, "harness_crash", "?"))[:300]))
     else:
         rt_viol = report_rt(ctx, res)
 
-    broken = [o for o in ctx.obligations if not o.ok and o.kind in ("theorem", "translator", "audit")]
+    broken = [o for o in ctx.obligations if not o.ok and (o.kind in ("theorem", "translator", "audit") or o.name == "correspondence:layout-model")]
     could_not_run = (not ran) or res is None
     if (broken or could_not_run) and not diffs and not rt_viol:
         # search: widen to the thorough generators
@@ -287,13 +312,34 @@ def replay(ctx, path):
         if not ctx.build_harness("c08rt"):
             return 2
         case = v.get("case") or {}
-        if case.get("kind") == "file":
-            # re-run the harness on the single file through the probe
-            rc, out = common.sh("%s probe < %s" % (ctx.harness_bin("c08rt"), case["path"]))
-            print(out[-4000:])
+        if key.startswith("roundtrip:"):
+            rc, out = common.sh([ctx.harness_bin("c08rt"), "--replay", path])
+            print(out)
             return 0
-        rc, out = common.sh([ctx.harness_bin("c08rt"), "--replay", path])
-        print(out)
+        # validators: re-run the harness on this one source (as the only file of a scratch tree) and the
+        # extracted checkers on what it exports
+        model = ctx.build_model("c08rt")
+        if model is None:
+            return 2
+        d = os.path.join(ctx.run_dir, "replay")
+        tree = os.path.join(d, "tree")
+        os.makedirs(tree, exist_ok=True)
+        for f in os.listdir(tree):
+            os.remove(os.path.join(tree, f))
+        if case.get("kind") == "file":
+            src = open(case["path"], errors="replace").read()
+        else:
+            src = case.get("source", "")
+        open(os.path.join(tree, "case.glu"), "w").write(src)
+        env = dict(common.ENV)
+        env["GLUON_REPO"] = tree
+        rc, out = common.sh([ctx.harness_bin("c08rt"), "--tier", "quick", "--seed", str(ctx.seed), "--out", d, "n=0"], env=env)
+        for name in ("span", "lay"):
+            ctx.run_model(model, os.path.join(d, name + "_in.txt"), os.path.join(d, name + "_out.txt"))
+            for l, c in zip(common.read_lines(os.path.join(d, name + "_out.txt")), common.read_lines(os.path.join(d, name + "_cases.txt"))):
+                if c.endswith("case.glu"):
+                    print("%s validator on the replayed source: %s" % (name, l))
+        print("expected: ok    recorded: %s" % v.get("observed"))
         return 0
     if not ctx.build_harness("c08"):
         return 2
